@@ -21,6 +21,7 @@ Definition sel_hop {A} (op : hop) (l : list A) : res (list A) :=
   | HSlice s => match py_slice s l with Some r => Ok r | None => Fail ValueError end
   | HPick i => match py_pick i l with Some d => Ok [d] | None => Fail IndexError end
   | HPickle | HCopy | HDeepcopy => Ok l
+  | HKeep m => Ok (keep_mask m l)
   end.
 
 Fixpoint sel_hops {A} (ops : list hop) (l : list A) : res (list A) :=
